@@ -72,6 +72,9 @@ pub enum Action {
     /// close the handle, try to open the file with another page size (must be refused, by an error or
     /// the documented panic, without touching the file), open it again with its own page size
     OpenWrongPagesize(u64),
+    /// with the handle closed: both headers are rewritten in the legacy (<= 0.10) format (same fields,
+    /// SHA3 checksum), as a file last written by such a release carries them; then reopened
+    LegacyHeaders,
     /// with the handle closed: if the two headers do not sit in the slots the pinned release would have
     /// put them into (transaction N in slot (N + 1) % 2), they are exchanged (slot fields and
     /// checksums adjusted).  A no-op on files written by the pinned alternation rule.
@@ -100,6 +103,7 @@ impl Action {
             Action::Reopen => json!("reopen"),
             Action::TearOtherSlot => json!("tear-other-header-slot"),
             Action::PinnedLayout => json!("headers-into-pinned-slots"),
+            Action::LegacyHeaders => json!("headers-into-legacy-format"),
             Action::LeakFreePage => json!("drop-last-id-from-free-list"),
             Action::OpenWrongPagesize(ps) => json!({"open-with-pagesize": ps}),
             Action::ReopenNumPages(np) => json!({"reopen-with-num-pages": np}),
@@ -114,6 +118,7 @@ impl Action {
                 "reopen" => Action::Reopen,
                 "tear-other-header-slot" => Action::TearOtherSlot,
                 "headers-into-pinned-slots" => Action::PinnedLayout,
+                "headers-into-legacy-format" => Action::LegacyHeaders,
                 "drop-last-id-from-free-list" => Action::LeakFreePage,
                 "open-reader" => Action::OpenReader,
                 "ro-commit" => Action::RoCommit,
@@ -957,6 +962,35 @@ impl Runner {
                     Ok(Ok(db)) => self.db = Some(Box::new(db)),
                     other => {
                         out.push(Violation::new("reopen_error", format!("open with the right page size after a refused one: {:?}", other.map(|x| x.map(|_| ())))));
+                        self.poisoned = true;
+                        return out;
+                    }
+                }
+                self.check_committed_state(or, &what, &mut out);
+            }
+            Action::LegacyHeaders => {
+                if !self.readers.is_empty() {
+                    return out;
+                }
+                self.db = None;
+                let mut bytes = self.file_bytes();
+                let ps = self.cfg.pagesize;
+                crate::compatx::legacy_rehead(&mut bytes, ps, &[0, 1]);
+                let r = std::fs::OpenOptions::new().write(true).open(&self.path).and_then(|f| {
+                    use std::os::unix::fs::FileExt;
+                    f.write_all_at(&bytes[..2 * ps as usize], 0)
+                });
+                if let Err(e) = r {
+                    out.push(Violation::new("harness", format!("cannot rewrite the headers: {}", e)));
+                    self.poisoned = true;
+                    return out;
+                }
+                let cfg = self.cfg.clone();
+                let path = self.path.clone();
+                match guarded(|| cfg.open(&path)) {
+                    Ok(Ok(db)) => self.db = Some(Box::new(db)),
+                    other => {
+                        out.push(Violation::new("reopen_error", format!("open of the file with legacy-format headers: {:?}", other.map(|x| x.map(|_| ())))));
                         self.poisoned = true;
                         return out;
                     }
